@@ -29,7 +29,10 @@ RULE = ('all lists of length <= 3 over a 10-region catalogue (point, circle, ell
         'unrotated box, polygons with 3 and 5 vertices, regular polygon) + cyclic windows of length 4..8, crossed with include '
         'patterns {absent, True, False, 0, 1} and component patterns {absent, all given, partially given} and 3 media; 5 kinds of '
         'non-representable members inserted at every position of every list of length <= 2; hand-built tables: box, rotbox, '
-        'rectangle, rotrectangle, ! prefixes, missing SHAPE column, unsupported and invalid shapes. A list is non-trivial when it '
+        'rectangle, rotrectangle, ! prefixes, missing SHAPE column, unsupported and invalid shapes; read lattice: all ordered pairs of 12 '
+        'row kinds (every FITS notation incl. box / rectangle / rotrectangle, excluded and upper-case spellings, one unsupported) x '
+        'ROTANG cells {0, 25} per row x optional columns {all, no ROTANG, neither R nor ROTANG, + COMPONENT}; files with further '
+        'extensions (unrelated table, image, a second REGION table) around the written table. A list is non-trivial when it '
         'mixes classes (columns padded), carries exclusion or component numbers, or contains a skipped member')
 BOUNDS = {'quick': 'lists <= 2 + windows, 3 include patterns, 3 component patterns, memory + file', 'thorough': 'lists <= 3 + windows, all patterns, 3 media'}
 ASSUMPTIONS = ['astropy.table / astropy.io.fits are trusted to store and return float64 columns unchanged',
@@ -369,6 +372,130 @@ def check_read(res, name):
 READ_NAMES = list(READ_CASES) + ['no_shape_column', 'invalid_shape', 'invalid_column']
 
 
+# ------------------------------------------------ read side: lattice of hand-built tables --
+# one row kind = (SHAPE text, X values, Y values, R values, columns the shape needs beyond X and Y, expected description
+# as a function of the row's ROTANG cell)
+def _row_kinds():
+    def rect(rot):
+        return {'shape': 'rectangle', 'coords': [(10.0, 20.0)], 'sizes': [4.0, 6.0], 'angle': rot}
+    return {
+        'point': ('point', [7.0], [8.0], [], (), lambda a: {'shape': 'point', 'coords': [(7.0, 8.0)], 'sizes': []}),
+        'circle': ('CIRCLE', [1.0], [2.0], [3.0], ('R',), lambda a: {'shape': 'circle', 'coords': [(1.0, 2.0)], 'sizes': [3.0]}),
+        'annulus': ('annulus', [9.0], [9.5], [1.0, 2.0], ('R',),
+                    lambda a: {'shape': 'circleannulus', 'coords': [(9.0, 9.5)], 'sizes': [1.0, 2.0]}),
+        'ellipse': ('ellipse', [4.0], [5.0], [3.0, 2.0], ('R', 'ROTANG'),
+                    lambda a: {'shape': 'ellipse', 'coords': [(4.0, 5.0)], 'sizes': [6.0, 4.0], 'angle': a}),
+        'elliptannulus': ('elliptannulus', [3.0], [3.5], [1.0, 2.0, 0.5, 1.0], ('R', 'ROTANG'),
+                          lambda a: {'shape': 'ellipseannulus', 'coords': [(3.0, 3.5)], 'sizes': None, 'angle': a}),
+        'box': ('box', [10.0], [20.0], [4.0, 6.0], ('R',), lambda a: rect(0.0)),
+        'xbox': ('!Box', [10.0], [20.0], [4.0, 6.0], ('R',), lambda a: rect(0.0)),
+        'rotbox': ('rotbox', [10.0], [20.0], [4.0, 6.0], ('R', 'ROTANG'), rect),
+        'rectangle': ('rectangle', [8.0, 12.0], [17.0, 23.0], [], (), lambda a: rect(0.0)),
+        'rotrectangle': ('!rotrectangle', [8.0, 12.0], [17.0, 23.0], [], ('ROTANG',), rect),
+        'polygon': ('polygon', [1.0, 5.0, 2.0], [1.0, 2.0, 6.0], [], (),
+                    lambda a: {'shape': 'polygon', 'coords': [(1.0, 1.0), (5.0, 2.0), (2.0, 6.0)], 'sizes': []}),
+        'pie': ('pie', [1.0], [2.0], [3.0, 4.0], ('R', 'ROTANG'), None),
+    }
+
+
+ROW_KINDS = ['point', 'circle', 'annulus', 'ellipse', 'elliptannulus', 'box', 'xbox', 'rotbox', 'rectangle', 'rotrectangle', 'polygon', 'pie']
+ROT_CELLS = [0.0, 25.0]
+# which optional columns the table has: every column any row needs / no ROTANG column / neither R nor ROTANG / + COMPONENT
+COLUMN_PATTERNS = ['all', 'no_rotang', 'no_r_no_rotang', 'all_component']
+
+
+def check_read_lattice(res, k1, k2, rots, cols):
+    """A two-row table (row kinds k1, k2; ROTANG cells rots; column pattern cols): every row whose shape finds the columns
+    it needs comes back as the region the FITS notation describes (box, rectangle: never rotated, whatever the ROTANG cell
+    holds), every other row is skipped with a warning, and the surviving rows keep their order, flags and component numbers."""
+    import astropy.units as u
+    from astropy.table import QTable
+    from regions import Regions
+    kinds = _row_kinds()
+    rows = [kinds[k1], kinds[k2]]
+    case = {'op': 'read_lattice', 'rows': [k1, k2], 'rotang': list(rots), 'columns': cols}
+    res.evaluations += 1
+    res.transitions += 1
+    nx = max(len(r[1]) for r in rows)
+    nr = max([len(r[3]) for r in rows] + [1])
+    pad = lambda v, n: list(v) + [0.0] * (n - len(v))       # noqa
+    t = QTable()
+    t['SHAPE'] = [r[0] for r in rows]
+    t['X'] = [pad(r[1], nx) for r in rows] * u.pix
+    t['Y'] = [pad(r[2], nx) for r in rows] * u.pix
+    have = {'X', 'Y'}
+    if cols != 'no_r_no_rotang':
+        t['R'] = [pad(r[3], nr) for r in rows] * u.pix
+        have.add('R')
+    if cols in ('all', 'all_component'):
+        t['ROTANG'] = list(rots) * u.deg
+        have.add('ROTANG')
+    if cols == 'all_component':
+        t['COMPONENT'] = [41, 17]
+    exp = []
+    skipped = 0
+    for k, r in enumerate(rows):
+        if r[5] is None or not set(r[4]) <= have:
+            skipped += 1
+            continue
+        e = dict(r[5](rots[k]))
+        if e['shape'] == 'polygon' and nx > len(r[1]):
+            return      # padded polygon rows: the recorded zero-padding finding, not this lattice
+        e['include'] = not r[0].startswith('!')
+        e['component'] = [41, 17][k] if cols == 'all_component' else None
+        exp.append(e)
+    res.axis('read_columns', cols)
+    res.axis('read_row', k1)
+    try:
+        with warnings.catch_warnings(record=True) as w:
+            warnings.simplefilter('always')
+            P = list(Regions.parse(t, format='fits'))
+    except Exception as exc:      # noqa: BLE001
+        res.violation(ID, 'read_raises', case, f'table {[r[0] for r in rows]} columns {sorted(have)}: {type(exc).__name__}: {exc}')
+        return
+    res.outcome(('read_lattice', cols, len(exp), skipped))
+    res.nontriv(('read_lattice', k1, k2, tuple(rots), cols))
+    if len(P) != len(exp):
+        res.violation(ID, 'read_count', case, f'table {[r[0] for r in rows]} with columns {sorted(have)}: expected {len(exp)} regions '
+                                              f'({[e["shape"] for e in exp]}), got {len(P)} (warnings: {[str(x.message) for x in w][:2]})',
+                      len(exp), len(P))
+        return
+    if skipped and not w:
+        res.violation(ID, 'skip_without_warning', case, 'a row was skipped without a warning')
+    for k, (e, r) in enumerate(zip(exp, P)):
+        g = RD.describe(r)
+        bad = []
+        if g['shape'] != e['shape']:
+            bad.append(f'shape {g["shape"]}, expected {e["shape"]}')
+        else:
+            if g['coords'] != e['coords']:
+                bad.append(f'coordinates {g["coords"]}, expected {e["coords"]}')
+            if e['sizes'] is not None and g['sizes'] != e['sizes']:
+                bad.append(f'sizes {g["sizes"]}, expected {e["sizes"]}')
+            if 'angle' in e and g['angle'] != e['angle']:
+                bad.append(f'angle {g["angle"]}, expected {e["angle"]}')
+            if g['include'] != e['include']:
+                bad.append(f'include {g["include"]}, expected {e["include"]}')
+            if g['component'] != e['component']:
+                bad.append(f'component {g["component"]}, expected {e["component"]}')
+        if bad:
+            res.violation(ID, 'read_wrong', case, f'table {[x[0] for x in rows]} with columns {sorted(have)}, ROTANG cells {list(rots)}: '
+                                                  f'region {k}: ' + '; '.join(bad), e, g)
+
+
+def read_lattice_cases(tier):
+    out = []
+    for k1 in ROW_KINDS:
+        for k2 in ROW_KINDS:
+            for cols in COLUMN_PATTERNS:
+                rotsets = [(a, b) for a in ROT_CELLS for b in ROT_CELLS] if cols in ('all', 'all_component') else [(0.0, 0.0)]
+                if tier == 'quick' and cols == 'all_component':
+                    rotsets = [(25.0, 25.0)]
+                for rots in rotsets:
+                    out.append({'rows': [k1, k2], 'rotang': list(rots), 'columns': cols})
+    return out
+
+
 # ------------------------------------------------------------------ driver --
 def list_cases(tier):
     out = []
@@ -409,6 +536,8 @@ def shards(tier, seed):
     for ch in chunks(list_cases(tier), 64 if tier == 'quick' else 192):
         out.append({'kind': 'lists', 'cases': ch['cases']})
     out.append({'kind': 'read'})
+    for ch in chunks(read_lattice_cases(tier), 16):
+        out.append({'kind': 'read_lattice', 'cases': ch['cases']})
     return out
 
 
@@ -419,6 +548,10 @@ def run_shard(shard, tier, seed):
             res.states += 1
             check_list(res, c['names'], c['inc'], c['comp'], c['medium'], tuple(c['insert']) if c['insert'] else None)
         res.sample({'op': 'list', **shard['cases'][-1]})
+    elif shard['kind'] == 'read_lattice':
+        for c in shard['cases']:
+            res.states += 1
+            check_read_lattice(res, c['rows'][0], c['rows'][1], tuple(c['rotang']), c['columns'])
     else:
         for n in READ_NAMES:
             res.states += 1
@@ -431,6 +564,8 @@ def replay(case):
     res = Result()
     if case['op'] == 'list':
         check_list(res, case['names'], case['inc'], case['comp'], case['medium'], tuple(case['insert']) if case.get('insert') else None)
+    elif case['op'] == 'read_lattice':
+        check_read_lattice(res, case['rows'][0], case['rows'][1], tuple(case['rotang']), case['columns'])
     else:
         check_read(res, case['name'])
     return res
